@@ -24,6 +24,10 @@ class Untranslatable(Exception):
     pass
 
 
+# fields of `structure WindowManager` in lean/H2/Gen/Windows.lean (the reference definitions)
+REFERENCE_FIELDS = ['max_window_size', 'current_window_size', 'bytes_processed']
+
+
 def const_env(mod):
     """module-level NAME = <int expr> constants"""
     env = {}
@@ -165,7 +169,7 @@ class Tr:
             if (isinstance(st.value, ast.Call) and isinstance(st.value.func, ast.Attribute)
                     and isinstance(st.value.func.value, ast.Name) and st.value.func.value.id == 'self'
                     and not st.value.args):
-                return ind + '%s.%s s' % (self.cls, self.fld(st.value.func.attr))
+                return ind + 'H2.GenRaw.%s.%s s' % (self.cls, self.fld(st.value.func.attr))
             v, t = self.E(st.value)
             if t == 'none':
                 return ind + '(.ok none, s)'
@@ -239,13 +243,10 @@ def translate_windows():
     for st in init.body:
         if isinstance(st, ast.Assign) and isinstance(st.targets[0], ast.Attribute):
             fields.append(st.targets[0].attr)
-    out = ['structure WindowManager where']
-    for f in fields:
-        out.append('  %s : Int' % f.lstrip('_'))
-    out.append('deriving DecidableEq, Repr, Inhabited')
-    out.append('')
-    out.append('abbrev WRes := Except PyErr (Option Int) × WindowManager')
-    out.append('')
+    # the structure type is the reference one (H2/Gen/Windows.lean): the class must still have exactly its fields
+    if [f.lstrip('_') for f in fields] != REFERENCE_FIELDS:
+        raise Untranslatable('WindowManager fields changed: %r' % (fields,))
+    out = []
     # __init__: asserts then field assignments from args
     args = [a.arg for a in init.args.args[1:]]
     tr = Tr(consts, {}, fields, 'WindowManager', args)
@@ -294,30 +295,47 @@ def translate_function(path, fname, lean_name, enums):
     return 'def %s %s : Except PyErr Int :=\n%s\n' % (lean_name, sig, tr.fblock(fn.body, '  ', None))
 
 
+def reference_structure():
+    return '\n'.join(['structure WindowManager where'] + ['  %s : Int' % f for f in REFERENCE_FIELDS] +
+                     ['deriving DecidableEq, Repr, Inhabited', '', 'abbrev WRes := Except PyErr (Option Int) × WindowManager', ''])
+
+
 def main():
+    """py2lean.py <WindowsRaw.lean> [--inline <Windows.lean>]
+    The first file gets the functions in namespace H2.GenRaw (over the reference structure type).  With --inline the
+    same functions are also written as a stand-alone replacement of the reference file (namespace H2.Gen, structure
+    included): what the check builds the theorems against when a bridge theorem does not check."""
     dest = sys.argv[1]
+    inline = sys.argv[3] if len(sys.argv) > 3 and sys.argv[2] == '--inline' else None
     enums = load_enums()
-    parts = ['/- GENERATED by tools/py2lean.py from %s — do not edit. -/' % SRC,
-             'import H2.Gen.Tables', 'namespace H2.Gen', '']
+    parts = ['/- GENERATED by tools/py2lean.py from the h2 source tree ($H2_SRC, default /repo/src) — do not edit.',
+             '   The functions as the current source defines them, over the reference structure type; H2/Gen/Bridge/*.lean',
+             '   prove each of them equal to the reference definition of H2/Gen/Windows.lean. -/',
+             'import H2.Gen.Windows', 'namespace H2.GenRaw', 'open H2.Gen', '']
+    body = []
     status = {}
     for key, thunk in (
             ('windows', translate_windows),
             ('validate_setting', lambda: translate_function('h2/settings.py', '_validate_setting', 'validate_setting', enums)),
             ('guard_increment_window', lambda: translate_function('h2/utilities.py', 'guard_increment_window', 'guard_increment_window', enums))):
         try:
-            parts.append(thunk())
+            body.append(thunk())
             status[key] = 'ok'
         except Untranslatable as e:
             status[key] = 'untranslatable: %s' % e
         except Exception as e:  # syntax errors etc.
             status[key] = 'error: %r' % e
-    parts.append('end H2.Gen')
-    text = '\n'.join(parts) + '\n'
+    text = '\n'.join(parts + body + ['end H2.GenRaw']) + '\n'
     import json
     if all(v == 'ok' for v in status.values()):
         old = open(dest).read() if os.path.exists(dest) else None
         if old != text:
             open(dest, 'w').write(text)
+        if inline:
+            itext = '\n'.join(['/- GENERATED by tools/py2lean.py from the h2 source tree: the regenerated functions in place of the reference definitions. -/',
+                               'import H2.Gen.Tables', 'namespace H2.Gen', '', reference_structure()] +
+                              [b.replace('H2.GenRaw.', 'H2.Gen.') for b in body] + ['end H2.Gen']) + '\n'
+            open(inline, 'w').write(itext)
     print(json.dumps(status))
 
 
